@@ -359,6 +359,7 @@ def c17_check(res, known, args):
     res.coverage.update({"programs": rep.get("programs"), "evaluations": sum(rep.get("counts", {}).values()),
                          "distinct_nontrivial": sum(v for k, v in rep.get("counts", {}).items() if "Pass" in k), "verdict_counts": rep.get("counts"),
                          "interpreter_selftest": rep.get("interpreter_selftest"), "samples": rep.get("samples"), "cached": cached,
+                         "units_proved_to_pass_by_theorem": rep.get("proved_units"),
                          "rule": "every emitted test (Go, Rust, Java, Python, C++) is read by a strict scaffold interpreter (harness/extract_tests.py): the sample object, the "
                                  "compared members, the copy-back statements; build problems (names, types, redeclarations, imports) are derived from the emitted text; the test is "
                                  "then RUN by the self-test model (coq/Tests/SelfTest.v: encode with store-backs, decode, compare) over the IR extracted from the same compilation"})
